@@ -1,5 +1,6 @@
 //! C06 -- UTC <-> TAI follows the IERS leap-second table exactly, in both directions.
-use super::generated::{ORACLE_LEAPS, ORACLE_LEAP_DAYS};
+use super::generated::{ORACLE_LEAPS, ORACLE_LEAPS_IERS_LIST, ORACLE_LEAP_DAYS};
+use crate::leap_seconds::LeapSecondsFile;
 use super::oracle::*;
 use super::src::Src;
 use crate::leap_seconds::{LatestLeapSeconds, LeapSecond, LeapSecondProvider};
@@ -76,8 +77,13 @@ harness!(c06_table_is_iers, unwind = 44, |s| {
         if ls.announced_by_iers {
             v_assert!(s, k < N_ORACLE, "no IERS entry beyond the data files");
             if k < N_ORACLE {
-                v_assert!(s, ls.timestamp_tai_s == ORACLE_LEAPS[k].0 as f64, "IERS entry timestamp equals the data files");
-                v_assert!(s, ls.delta_at == ORACLE_LEAPS[k].1 as f64, "IERS entry TAI-UTC equals the data files");
+                v_assert!(s, ls.timestamp_tai_s == ORACLE_LEAPS[k].0 as f64, "IERS entry timestamp equals naif0012.txt");
+                v_assert!(s, ls.delta_at == ORACLE_LEAPS[k].1 as f64, "IERS entry TAI-UTC equals naif0012.txt");
+            }
+            v_assert!(s, ORACLE_LEAPS_IERS_LIST.len() == N_ORACLE, "both data files list the same number of leap seconds");
+            if k < ORACLE_LEAPS_IERS_LIST.len() {
+                v_assert!(s, ls.timestamp_tai_s == ORACLE_LEAPS_IERS_LIST[k].0 as f64, "IERS entry timestamp equals data/leap-seconds.list");
+                v_assert!(s, ls.delta_at == ORACLE_LEAPS_IERS_LIST[k].1 as f64, "IERS entry TAI-UTC equals data/leap-seconds.list");
             }
             k += 1;
         } else {
@@ -226,4 +232,53 @@ harness!(c06_provider_equivalence, unwind = 44, |s| {
     }
     v_cover!(builtin.is_some(), "after 1972 reachable");
     v_cover!(builtin.is_none(), "before 1972 reachable");
+});
+
+// A LeapSecondsFile holding what from_path builds from the data lines of the IERS list: its forward /
+// reverse iteration and indexing mirror the list, and it answers leap_seconds_with like the built-in table.
+fn file_provider() -> LeapSecondsFile {
+    let mut v: Vec<LeapSecond> = Vec::with_capacity(N_ORACLE);
+    let mut i = 0;
+    while i < N_ORACLE {
+        v.push(LeapSecond::new(ORACLE_LEAPS[i].0 as f64, ORACLE_LEAPS[i].1 as f64, true));
+        i += 1;
+    }
+    LeapSecondsFile::verif_from_vec(v)
+}
+
+harness!(c06_file_provider_iteration, unwind = 30, |s| {
+    let mut f = file_provider();
+    let ip = file_provider();
+    let mut k = 0usize;
+    while let Some(ls) = f.next() {
+        v_assert!(s, k < N_ORACLE && ls == OracleProvider::item(k), "forward iteration yields the list in order");
+        if k < N_ORACLE {
+            v_assert!(s, *ip.index(k) == ls, "Index agrees");
+        }
+        k += 1;
+    }
+    core::mem::forget(ip);
+    v_assert!(s, k == N_ORACLE, "forward iteration yields every row");
+    let mut r = file_provider();
+    let mut j = N_ORACLE;
+    while let Some(ls) = r.next_back() {
+        v_assert!(s, j > 0, "reverse iteration yields no extra row");
+        if j > 0 {
+            j -= 1;
+            v_assert!(s, ls == OracleProvider::item(j), "reverse iteration yields the list backwards");
+        }
+    }
+    v_assert!(s, j == 0, "reverse iteration yields every row, including the first");
+    core::mem::forget(f);
+    core::mem::forget(r);
+    v_cover!(k == N_ORACLE, "walked");
+});
+
+harness!(c06_file_provider_equivalence, unwind = 44, |s| {
+    let d = any_utc_window(s);
+    let e = Epoch::from_duration(d, TimeScale::TAI);
+    let with = e.leap_seconds_with(true, file_provider());
+    let builtin = e.leap_seconds(true);
+    v_assert!(s, builtin == with, "a file-backed provider holding the IERS list answers like the built-in table");
+    v_cover!(builtin == Some(10.0), "first half of 1972 reachable");
 });
